@@ -36,6 +36,21 @@ def gen_graph(rng, symmetric=False):
     return adj
 
 
+def gen_big_graph(rng):
+    """a few thousand nodes, sparse, with one or two hubs of out- and in-degree above the hybrid-cut threshold (1000)"""
+    n = rng.randrange(3000, 9000)
+    adj = [[] for _ in range(n)]
+    for s in range(n):
+        for _ in range(rng.randrange(0, 4)):
+            adj[s].append([rng.randrange(n), rng.randrange(1, 10)])
+    for hub in rng.sample(range(n), 2):
+        for _ in range(1500):
+            adj[hub].append([rng.randrange(n), 1])
+        for _ in range(1200):
+            adj[rng.randrange(n)].append([hub, 1])
+    return adj
+
+
 def transpose(adj):
     t = [[] for _ in adj]
     for s, a in enumerate(adj):
@@ -71,12 +86,13 @@ def run_case(tag, adj, policy, hosts, seed, rounds, tier, fo, timeout=600):
     def emit(r):
         nonlocal n
         fo.write(json.dumps(r, separators=(",", ":")) + "\n"); n += 1
-    emit(dict(ev="graph", case=tag, policy=policy, hosts=hosts, n=len(adj), edges=edges, rc=rc))
+    big = len(adj) > 64
+    emit(dict(ev="graph", case=tag, policy=policy, hosts=hosts, n=len(adj), edges=[] if big else edges, m=len(edges), rc=rc))
     for h in range(hosts):
         for r in per[h]:
-            if r["ev"] == "part":
+            if r["ev"] in ("part", "partsum"):
                 emit(r)
-    emit(dict(ev="partend", hosts=hosts))
+    emit(dict(ev="partsumend" if big else "partend", hosts=hosts))
     rounds_seen = sorted({r["round"] for rows in per for r in rows if "round" in r})
     for rd in rounds_seen:
         for h in range(hosts):
